@@ -134,3 +134,9 @@ Theorem Zeta_at_even_integers : forall Zf : R -> R,
      Zf (1 - INR (2 * k)) = 2 / (2 * PI) ^ (2 * k) * cos (PI * INR k) * IZR (zfact (2 * k - 1)) * Zf (INR (2 * k))) ->
   forall k, (1 <= k)%nat -> Zf (INR (2 * k)) = zeta_even k.
 Proof. exact zeta_even_closed. Qed.
+(* psi(1/4 - m) - psi(1): anchors the reflection branch of Digamma where its cotangent term does not vanish *)
+Theorem Digamma_at_quarter_minus_integers : forall psi : R -> R,
+  psi (1 / 4) - psi 1 = - PI / 2 - 3 * ln 2 ->
+  (forall m : nat, psi (1 / 4 - INR (Datatypes.S m) + 1) = psi (1 / 4 - INR (Datatypes.S m)) + 1 / (1 / 4 - INR (Datatypes.S m))) ->
+  forall m, psi (1 / 4 - INR m) - psi 1 = psi_mquarter_diff m.
+Proof. exact psi_mquarter_closed. Qed.
